@@ -124,6 +124,35 @@ theorem recorded_values_are_tokens_of_the_printed_text (T : Table) (hL : Reprint
   simp only [Lex.kt, Prod.mk.injEq] at hkt
   exact ⟨tok, htok, hkt.2, hkt.1⟩
 
+/-- … and so is every item of every string list recorded under a name in a top-level command -/
+theorem recorded_list_items_are_tokens_of_the_printed_text (T : Table) (hL : Reprint.TableL T) (hP : Printable.TableP T)
+    (hT : Typed.TableT T) (hN : Roles.TableN T) (text : Bytes) (prev : PState) (r : List Node)
+    (h : Machine.parse T text prev = .accept r) (out : Bytes) (hs : Ser.script T r = some out) :
+    ∃ lr, Lex.lex out = some lr ∧ lr.err = none ∧
+      ∀ n ∈ r, ∀ k items, assocGet n.args k = some (.strs k items) → ∀ x ∈ items, ∃ tok ∈ lr.toks, tok.text = x ∧ tok.kind = .string := by
+  obtain ⟨lr, h1, h2, h3⟩ := printed_script_lexes_to_its_tokens T hL hP hT hN text prev r h out hs
+  refine ⟨lr, h1, h2, ?_⟩
+  intro n hn k items hk x hx
+  obtain ⟨lr0, hl0, hnt⟩ := Typed.accepted_tree_typed hT text prev r h
+  have hmem : (TokKind.string, x) ∈ Reprint.flatNs T r := by
+    apply Reprint.flatN_sub_flatNs T r n hn
+    cases hnt n hn with
+    | mk name args extra children comments d hnamed hname hargs hextra hkids htest htests =>
+      have hd : d ∈ T := Typed.named_mem hnamed
+      have hbn : T.byName name = some d := by rw [← hname]; exact Printable.defP_byName (hP d hd)
+      have hin : Arg.strs k items ∈ args := List.mem_of_find?_eq_some hk
+      obtain ⟨⟨a, ha, hak, _⟩, hitems⟩ := hargs _ hin
+      have hslot := (Printable.defP_slot (hP d hd) a ha).1
+      rw [hak] at hslot
+      have hg := Reprint.items_genuine (fun tok htok => Lex.lex_genuine text lr0 hl0 tok htok) items hitems x hx
+      have := Reprint.recorded_item_in_flatN T name args extra children comments d hbn k items hk a ha hslot x hx
+      rwa [(Reprint.renderItem_string x hg).1] at this
+  rw [← h3] at hmem
+  simp only [List.mem_map] at hmem
+  obtain ⟨tok, htok, hkt⟩ := hmem
+  simp only [Lex.kt, Prod.mk.injEq] at hkt
+  exact ⟨tok, htok, hkt.2, hkt.1⟩
+
 /-- the printed text never contains a byte sequence that is no token -/
 theorem printed_script_has_no_lexical_error (text : Bytes) (prev : PState) (r : List Node)
     (h : Machine.parse Generated.builtinTable text prev = .accept r) (out : Bytes) (hs : Ser.script Generated.builtinTable r = some out) :
